@@ -14,7 +14,8 @@ impl Rng {
     pub fn below(&mut self, n: u64) -> u64 { if n == 0 { 0 } else { self.next() % n } }
     /// uniform in [lo, hi]
     pub fn range(&mut self, lo: i64, hi: i64) -> i64 {
-        lo + self.below((hi - lo + 1) as u64) as i64
+        // wrapping on purpose: ranges spanning more than half of i64 (the harness is built with overflow checks)
+        lo.wrapping_add(self.below(hi.wrapping_sub(lo).wrapping_add(1) as u64) as i64)
     }
     pub fn chance(&mut self, num: u64, den: u64) -> bool { self.below(den) < num }
     pub fn pick<'a, T>(&mut self, xs: &'a [T]) -> &'a T { &xs[self.below(xs.len() as u64) as usize] }
